@@ -339,6 +339,8 @@ package raft
 //@ axiom [T-std.meta-name-parses] forall(d, i, gparse(gtrim(gbase(mfile(d, i)), ".meta")) == i)
 //@ func path/filepath.Glob
 //@   trusted
+// (the only error Glob returns is ErrBadPattern)
+//@   ensures gpatok(pattern) ==> result1 == nil
 //@   ensures result1 == nil ==> forall(k, 0 <= k && k < len(result0) ==> fs[result0[k]] && gmatch(pattern, result0[k]))
 //@   ensures result1 == nil ==> forall(j, k, 0 <= j && j < k && k < len(result0) ==> result0[j] != result0[k])
 //@   ensures result1 == nil ==> forall(p, fs[p] && gmatch(pattern, p) ==> 0 <= gpos(arrof(result0), p) && gpos(arrof(result0), p) < len(result0) && result0[gpos(arrof(result0), p)] == p)
@@ -352,6 +354,7 @@ package raft
 //@ func strconv.ParseUint
 //@   trusted
 //@   ensures result1 == nil ==> result0 == gparse(s)
+//@   ensures gisnum(s) ==> result1 == nil
 
 //@ func findSnapshots
 //@   props C09 C10 C19
